@@ -46,7 +46,7 @@ def pipe_items(tier, kinds_q, kinds_t=None, k1=True, k1_rules=None, big=True, ge
     seeds = corpus.seed_ids(("fix", "cls", "gen"))
     out = universe.zero_dev(seeds + (corpus.seed_ids(("big",)) if big else []))
     if tier == "quick":
-        out += universe.one_dev(corpus.small_slice(), kinds_q)
+        out += universe.one_dev(corpus.small_slice(max_lines=25), kinds_q)
         if k1:
             out += configs_k1.items_for_own_fixtures(limit_values=2, rules=k1_rules)
     else:
@@ -63,7 +63,7 @@ def bound_text(tier, kinds_q, kinds_t=None):
         "0 deviations: all 1906 fix/cls/gen seeds + 23 large examples x {default, jcl, indent_only}; 1 layout deviation ("
         + ",".join(kinds_q if tier == "quick" else (kinds_t or kinds_q))
         + ") at every applicable position of "
-        + ("the small-seed slice S_q" if tier == "quick" else "every fix/cls seed (and S_gen with the quick operator set)")
+        + ("the small-seed slice S_q (<=25 lines)" if tier == "quick" else "every fix/cls seed (and S_gen with the quick operator set)")
         + "; 1 configuration deviation (documented option values, K1"
         + (", first 2 values per option" if tier == "quick" else "")
         + ") of each rule on its own fixture"
